@@ -73,6 +73,7 @@ type Exec struct {
 	stack     []*ssa.Function
 	quotSplits int
 	pcDirty   bool
+	ivalChecks int
 	extraSolvers map[string]*Solver
 	fallbacks []string
 	fallbackMs int
@@ -971,7 +972,8 @@ func (e *Exec) describe(v Value) string {
 		if v.S == nil {
 			return fmt.Sprint(v.C)
 		}
-		return "<sym int>"
+		lo, hi, ok := e.ival(v)
+		return fmt.Sprintf("<sym int %s in [%d,%d] %v base=%v off=%d>", v.S.Name, lo, hi, ok, v.S.Base != nil, v.S.Off)
 	case *Value:
 		if v == nil {
 			return "nil"
